@@ -3,7 +3,7 @@
    harness drives real readers and writers that move 1 byte, random short pieces or
    everything, with interruptions, and failures injected at every offset, and replays each
    reader run on the model's chunked reader event by event). *)
-From PV Require Import Base MachineInt DataModel Ser De SerFlavors DeFlavors IoChunks Simulation IoFacts IoChunkFacts.
+From PV Require Import Base MachineInt DataModel Ser De SerFlavors DeFlavors IoChunks Simulation IoFacts IoChunkFacts StorageDecl GenStorages StorageInterp StorageFacts.
 Open Scope N_scope.
 
 (* writing through a writer produces exactly the plain encoding *)
@@ -98,6 +98,15 @@ Example C11_chunked_example :
   = Err DeserializeUnexpectedEnd.
 Proof. split; vm_compute; reflexivity. Qed.
 
+(* the two writer flavours are the method bodies of ser/flavors.rs as read on this run
+   (GenStorages.v): write_all of the one byte / of the whole slice, the error mapped to
+   SerializeBufferFull, flush on finalize - on every writer state and every argument *)
+Theorem C11_writers_are_the_source : forall w impl, impl = nm_io_Write \/ impl = nm_eio_Write ->
+  (forall b, sf_push writer_flavor w b = unwriter (run_method impl nm_try_push (SWriter w) (AByte b))) /\
+  (forall bs, sf_extend writer_flavor w bs = unwriter (run_method impl nm_try_extend (SWriter w) (ABytes bs))) /\
+  sf_finalize writer_flavor w = unwriter_out (run_method impl nm_finalize (SWriter w) ANone).
+Proof. exact writers_are_source. Qed.
+
 Print Assumptions C11_to_io_is_encode.
 Print Assumptions C11_to_io_failure.
 Print Assumptions C11_writer_prefix.
@@ -108,3 +117,4 @@ Print Assumptions C11_any_chunking_is_slice.
 Print Assumptions C11_any_schedule_total.
 Print Assumptions C11_any_write_chunking_is_encode.
 Print Assumptions C11_any_write_schedule_total.
+Print Assumptions C11_writers_are_the_source.
